@@ -78,7 +78,7 @@ class ChannelEngine(Engine):
                        'loss_natoms', 'loss_bounds', 'loss_atoms_section', 'loss_atoms_section_velocities_kept', 'stream_source', 'short_read_source', 'path_source',
                        'imageflags_written', 'tilted_cell', 'nonperiodic_dims', 'gapped_types', 'random_epoch',
                        'compared_cells_above_resolution', 'chained_transfer', 'poscar_cartesian', 'poscar_box_scale',
-                       'dump_scaled_columns', 'writer_prop_info_used', 'dest_path', 'dest_stream', 'table_with_id', 'io_error_load_raised', 'dump_two_position_forms', 'integer_typed_float_property', 'same_path_rewritten']
+                       'dump_scaled_columns', 'writer_prop_info_used', 'dest_path', 'dest_stream', 'table_with_id', 'io_error_load_raised', 'dump_two_position_forms', 'integer_typed_float_property', 'same_path_rewritten', 'system_with_own_atom_ids', 'poscar_rotated_cell', 'stream_positioned_past_an_earlier_frame']
     rule = ('Each run draws a working-unit epoch (atomman default or seeded random, so that unit-column mix-ups cannot hide behind '
             'factors of one) and performs up to 8 transfers. A transfer builds a system (or reuses the system loaded by the previous '
             'transfer): LAMMPS-compatible cell, orthogonal or tilted, any origin, 1-40 atoms inside / outside / on faces, 1-4 types '
@@ -235,7 +235,7 @@ class ChannelEngine(Engine):
             extra = r.sample(['charge', 'velocity', 'force', 'stress', 'tag', 'pe', 'm_id', 'mu', 'radius', 'torque', 'single', 'cell11',
                               'boximage'], r.randint(0, 4))
             op.update(units=r.choice(UNIT_STYLES[:-1]), posvar=r.choice(['pos', 'pos', 'spos', 'upos', 'supos', 'default', 'pos+upos', 'upos+pos', 'spos+pos', 'pos+supos']),
-                      use_prop_info=r.random() < 0.5, own_ids=r.random() < 0.3)
+                      use_prop_info=r.random() < 0.5, own_ids=r.random() < 0.3, prefixed=r.random() < 0.25)
             props = extra
         elif style == 'table':
             extra = r.sample(['charge', 'velocity', 'force', 'stress', 'tag', 'pe', 'disp', 'single', 'cell11'], r.randint(0, 4))
@@ -248,6 +248,9 @@ class ChannelEngine(Engine):
             props = []
         if fresh or (style == 'poscar' and float(np.abs(cur['origin']).max()) != 0.0):
             op['spec'] = self._gen_spec(ctx, style, props, zero_origin=(style == 'poscar'))
+            if style == 'poscar' and r.random() < 0.3:
+                # POSCAR stores three full vectors: the cell need not be in LAMMPS orientation (axes permuted or reversed)
+                op['spec']['rot'] = r.randrange(len(geom.CUBE_ROTATIONS))
             n = len(op['spec']['atype'])
         else:
             op['spec'] = None
@@ -273,6 +276,9 @@ class ChannelEngine(Engine):
     def _build(self, ctx, st, spec, style_units, tunits=None):
         A = st['A']
         V = np.array(spec['V'], dtype=float) * A
+        if spec.get('rot') is not None:
+            V = V @ geom.CUBE_ROTATIONS[int(spec['rot']) % len(geom.CUBE_ROTATIONS)].T
+            ctx.probe('poscar_rotated_cell')
         o = np.array(spec['origin'], dtype=float) * A
         rel = np.array(spec['rel'], dtype=float).reshape(-1, 3)
         pos = rel @ V + o
@@ -350,8 +356,17 @@ class ChannelEngine(Engine):
             return res[0], res[1:] if len(res) > 2 else res[1]
         return res, None
 
-    def _source(self, ctx, st, text, op):
+    def _source(self, ctx, st, text, op, prefix=None):
         st['nfile'] += 1
+        if prefix and op['src'] in ('bytesio', 'chunked', 'buffered'):
+            # the stream holds something else first (an earlier frame) and is handed over positioned at the frame to load
+            obj, closer, raw = streams.make_source(op['src'], prefix + text, st['scratch'], 'p%d.txt' % st['nfile'], op['chunks'], op['bufsize'])
+            obj.seek(len(prefix.encode('utf-8')))
+            st['last_raw'] = raw
+            ctx.probe('stream_positioned_past_an_earlier_frame')
+            ctx.probe('stream_source')
+            ctx.fault('stream_source')
+            return obj, closer
         fail_at = None
         io = op.get('ioerr')
         if io and op['src'] in ('chunked', 'buffered') and not (op.get('plan') or {}).get('loss'):
@@ -625,8 +640,15 @@ class ChannelEngine(Engine):
             if '+' in posvar:
                 ctx.probe('dump_two_position_forms')
         lastvar = posvar.split('+')[-1]
+        own_ids = None
         if op.get('own_ids') and 'atom_id' not in cur['props']:
-            pass
+            # the system carries its own atom ids (as one loaded from a dump and thinned out does): ascending, not 1..N
+            own_ids = np.cumsum(1 + (np.arange(cur['n']) % 3 == 1).astype(int)) + 1
+            system = copy.deepcopy(system)
+            system.atoms.atom_id = own_ids
+            if posvar == 'default':
+                kw['prop_name'] = ['atom_id', 'atype', 'pos'] + names
+            ctx.probe('system_with_own_atom_ids')
         text, pinfo = self._write(ctx, st, system, 'atom_dump', op, kw)
         if isinstance(pinfo, tuple):
             pinfo = pinfo[0]
@@ -639,7 +661,11 @@ class ChannelEngine(Engine):
             ctx.probe('nonperiodic_dims')
         ptext, fired = channel.perturb_dump(text, op['plan'])
         fired = self._fired(ctx, fired)
-        src, closer = self._source(ctx, st, ptext, op)
+        prefix = None
+        if op.get('prefixed'):
+            prefix = ('ITEM: TIMESTEP\n0\nITEM: NUMBER OF ATOMS\n1\nITEM: BOX BOUNDS pp pp pp\n0.0 1.0\n0.0 1.0\n0.0 1.0\n'
+                      'ITEM: ATOMS id type x y z\n1 1 0.5 0.5 0.5\n')
+        src, closer = self._source(ctx, st, ptext, op, prefix=prefix)
         shaped_nonstandard = any(PINFO.get(nm, ((),))[0] != () and nm not in ('velocity', 'force', 'mu', 'torque', 'boximage') for nm in names)
         use_pi = bool(op['use_prop_info']) or shaped_nonstandard
         lkw = {'lammps_units': units}
@@ -697,6 +723,11 @@ class ChannelEngine(Engine):
             unit = self._unit_of(nm, units) if nm in ('charge', 'velocity', 'force', 'mu', 'radius', 'torque', 'mass', 'diameter',
                                                       'ang_velocity', 'ang_momentum') else None
             self._cmp_prop(ctx, st, nm, got, cur, unit, fmt, klass)
+        if own_ids is not None:
+            gid = got.atoms.view.get('atom_id')
+            if gid is None or not np.array_equal(np.asarray(gid), own_ids):
+                raise Violation('C08.L5', {'what': 'the atom ids the system carried are not the ids that came back', 'want': own_ids,
+                                           'got': None if gid is None else np.asarray(gid)}, klass='propvalue/atom_id/' + klass)
         extra = sorted(set(got.atoms.view.keys()) - set(names) - {'atype', 'pos', 'atom_id'})
         if extra:
             raise Violation('C08.L5', {'what': 'properties appeared that the file does not carry', 'extra': extra}, klass='extra/' + klass)
